@@ -1,12 +1,14 @@
 """C05 (handshake, PeerCrypto level; node level in the node suite)."""
 from ..core import Script
 from .. import initgen
+from .. import nodegen
+from . import _nodecommon
 
 ID = "C05"
-SUITES = ["init"]
+SUITES = ["init", "node"]
 LEAN_MODULES = ["VpnCloud.Proofs.C05"]
 THEOREMS = ["VpnCloud.Proofs.C05." + n for n in ("masterKey_comm", "masterKey_comm_wf", "masterKey_inj", "halves_opposite", "initiator_success_binds", "no_second_success", "success_stage")]
-BATCH = 20
+BATCH = 10
 SEARCH_BUDGET_S = 400
 EXPECTED_CLASSES = ["ideliver:reply", "ideliver:init", "ideliver:err:crypto", "ideliver:err:parse", "ideliver:msg"]
 TRUSTED_BASE = ["Ed25519 (ring) idealised: a signature verifies iff it is the signature of a logged genuine message under that key (I1); X25519 symbolic (L2, I3); AEAD ideal (I2)",
@@ -16,6 +18,8 @@ ASSUMPTIONS = ["idealised signatures / AEAD / ECDH as named hypotheses; cipher s
 
 
 def obs_class(op, obs):
+    if op.startswith("n"):
+        return _nodecommon.obs_class(op, obs)
     k = op.split(" ", 1)[0].replace("ideliver-from", "ideliver")
     r = obs.split(" | ", 1)[0]
     head = r.split(" ", 1)[0]
@@ -25,6 +29,8 @@ def obs_class(op, obs):
 
 
 def nontrivial_key(op, obs):
+    if op.startswith("n"):
+        return _nodecommon.nontrivial_key(op, obs)
     t = op.split(" ")
     k = t[0].replace("ideliver-from", "ideliver")
     if " | " not in obs:
@@ -40,7 +46,8 @@ def nontrivial_key(op, obs):
 
 def classify(script, result):
     return None
-RULE = ("suite init: all schedules over {A initiates, B initiates, deliver latest / second latest datagram of either side, tick A, tick B} to depth 5 (quick, sampled at depth 5) / 7 "
+RULE = ("node level: 2-3 nodes under a seeded adversarial network (drop / duplicate / reorder, asymmetric loss) followed by a reliable phase of peer timeout + retry horizon, then payload both ways and mutual connection; "
+        "suite init: all schedules over {A initiates, B initiates, deliver latest / second latest datagram of either side, tick A, tick B} to depth 5 (quick, sampled at depth 5) / 7 "
         "(thorough, sampled above 5), real handshake objects re-executed per schedule, followed by sealed probes both ways; random schedules to depth 60 / 200 with "
         "reflection and mutations; long runs with key rotation under random loss; distinct non-trivial = distinct (op, result class, stage, cipher, mutation kind)")
 EXPLANATION = "C05 safety at PeerCrypto level: agreement of completed partners on key, cipher, roles and payload; completes at most once (reference monitor + correspondence)"
@@ -66,3 +73,10 @@ def gen(tier, rng):
         yield initgen.c05_random(rng, rng.range(10, 200 if thorough else 60), "rand-%d" % i)
     for i in range(6 if thorough else 1):
         yield initgen.rotation_run(rng, "rotation-%d" % i, 900 if thorough else 380)
+    # node level: adversarial network followed by a reliable phase of peer timeout + handshake retry horizon
+    yield nodegen.restart_script(rng, "restart-dial-2", 2)
+    yield nodegen.restart_script(rng, "restart-dial-1", 1)
+    yield nodegen.healing_script(rng, "heal-asym-12", 2, pt=60, chaos=100, asym=(1, 2))
+    yield nodegen.healing_script(rng, "heal-asym-21", 2, pt=60, chaos=100, asym=(2, 1))
+    for i in range(30 if thorough else 4):
+        yield nodegen.healing_script(rng, "heal-%d" % i, rng.choice([2, 2, 3]), pt=rng.choice([60, 60, 130]), chaos=rng.choice([20, 60, 100, 130]), drop=rng.choice([30, 50, 70, 90]))
